@@ -139,8 +139,9 @@ def point_kinds(ctx):
         out = {}
         for name, fn in ctx.model.methods["Point2D"].items():
             writes = any(isinstance(n, (ast.Assign, ast.AugAssign)) and any(
-                isinstance(t, ast.Attribute) and t.attr in ("_x", "_y")
-                for t in (n.targets if isinstance(n, ast.Assign) else [n.target])) for n in ast.walk(fn.node))
+                isinstance(x, ast.Attribute) and x.attr in ("_x", "_y")
+                for t in (n.targets if isinstance(n, ast.Assign) else [n.target]) for x in ast.walk(t))
+                for n in ast.walk(fn.node))
             if not writes or name == "__init__":
                 continue
             try:
